@@ -32,8 +32,10 @@ META = {
                   "Ascii, Blob and a third value (negative int, longer text / blob) (thorough). Every type has an ordinary value and "
                   "the value that is present but falsy in Python (0, False, '', b''; a uuid has none). Every case is run in two application histories "
                   "(models keyed by the base column classes defined and used first / models keyed by their subclasses first), "
-                  "each in a freshly imported cqlengine whose column and model classes are then shared by all cases. Key-capable types whose encoding is calendar / wide-number arithmetic (DateTime, Date, "
-                  "Time, Decimal, VarInt, Float, Double, Inet, TimeUUID) and frozen collections / UDTs are NOT covered; component "
+                  "each in a freshly imported cqlengine whose column and model classes are then shared by all cases. Decimal, Float and Double keys appear only as PAIRS of statements on one model whose key values "
+                  "are equal in Python and different for Cassandra (1.0 / 1.00, 0.0 / -0.0; encodings written out in Bind.tla), "
+                  "alone and inside a composite key. Key-capable types whose encoding is calendar / wide-number arithmetic (DateTime, Date, "
+                  "Time, VarInt, Inet, TimeUUID; Decimal / Float / Double beyond those pairs) and frozen collections / UDTs are NOT covered; component "
                   "encodings of the covered types are written out in Bind.tla (Enc), not taken from the driver. Batches carry no "
                   "routing key in cqlengine and are out of scope. Trusted: TLC, the recording session double.",
     "design_ref": "5.6 C37 / C35 / C38",
